@@ -531,8 +531,8 @@ class Command(Accessible):
                 )
             # convert transported value to internal value
             argument = self.argument.import_value(argument)
-            # verify range
-            self.argument.validate(argument)
+            # verify range (and use the validated value: it may be clamped to the limits)
+            argument = self.argument.validate(argument)
             if isinstance(self.argument, TupleOf):
                 res = func(*argument)
             elif isinstance(self.argument, StructOf):
